@@ -83,6 +83,8 @@ def execute(req, scratch_root, kernel):
             )
         except kernel.Discard as d:
             res.update(outcome="discard", reason=d.reason)
+        except kernel.Misbehaviour as m:
+            res.update(outcome="violation", prop=prop, monitor=m.monitor, detail=m.detail, site=m.site, fault=m.fault)
         except kernel.Unexpected as u:
             res.update(outcome="violation", prop=prop, monitor="undocumented-exception", detail=f"in a fault-free run felupe raised {u} (at {u.where}) - neither a result nor Newton's documented failure", site=u.where, fault=None)
         except BaseException as e:  # harness error: never a violation, never a pass
